@@ -554,6 +554,23 @@ func init() {
 			for _, l := range extra {
 				lists = append(lists, []string{l})
 			}
+			// sizes: a rule (and an exception) with nine and with seventeen domains, one of them wildcard-TLD;
+			// seventy generic rules with exceptions for the 33rd, the 34th and the 65th
+			for _, n := range []int{8, 16} {
+				var ds []string
+				for i := 0; i < n; i++ {
+					ds = append(ds, fmt.Sprintf("d%02d.test", i))
+				}
+				ds = append(ds[:n/2], append([]string{"google.*"}, ds[n/2:]...)...)
+				lists = append(lists, []string{strings.Join(ds, ",") + "##.many", "##.many"}, []string{"##.many", strings.Join(ds, ",") + "#@#.many"},
+					[]string{strings.Join(ds, ",") + "##.many", "~" + strings.Join(ds, ",~") + "##.rest"})
+			}
+			var gens []string
+			for i := 0; i < 70; i++ {
+				gens = append(gens, fmt.Sprintf("##.g%02d", i))
+			}
+			lists = append(lists, append(append([]string{}, gens...), "example.org#@#.g32", "example.org#@#.g33", "example.org#@#.g64", "google.*#@#.g69"))
+			hosts = append(hosts, "d00.test", "d15.test", "www.d07.test")
 			for _, lines := range lists {
 				var parsed []*rules.CosmeticRule
 				for _, l := range lines {
